@@ -2841,7 +2841,10 @@ class SFTPClientHandler(SFTPHandler):
         self.logger.debug1('Received version=%d%s', version,
                            ', extensions:' if rcvd_extensions else '')
 
-        self._log_extensions(rcvd_extensions)
+        try:
+            self._log_extensions(rcvd_extensions)
+        except PacketDecodeError as exc:
+            raise SFTPBadMessage(str(exc)) from None
 
         self._version = version
 
@@ -5810,8 +5813,9 @@ class SFTPClient:
 
             names, _ = await self._handler.realpath(path_bytes)
 
-        if len(names) > 1:
-            raise SFTPBadMessage('Too many names returned')
+        if len(names) != 1:
+            raise SFTPBadMessage('Too many names returned' if names else
+                                 'No names returned')
 
         if check != FXRP_NO_CHECK:
             if self.version < 6:
@@ -5890,8 +5894,9 @@ class SFTPClient:
         linkpath = self.compose_path(path)
         names, _ = await self._handler.readlink(linkpath)
 
-        if len(names) > 1:
-            raise SFTPBadMessage('Too many names returned')
+        if len(names) != 1:
+            raise SFTPBadMessage('Too many names returned' if names else
+                                 'No names returned')
 
         return self.decode(cast(bytes, names[0].filename),
                            isinstance(path, (str, PurePath)))
@@ -6994,7 +6999,11 @@ class SFTPServerHandler(SFTPHandler):
         self.logger.debug1('Received init, version=%d%s', version,
                            ', extensions:' if rcvd_extensions else '')
 
-        self._log_extensions(rcvd_extensions)
+        try:
+            self._log_extensions(rcvd_extensions)
+        except PacketDecodeError as exc:
+            await self._cleanup(SFTPBadMessage(str(exc)))
+            return
 
         self._version = min(version, self._version)
 
